@@ -237,6 +237,37 @@ def readFk (s : Str) : Option FkDesc :=
     | none => none
   | _ => none
 
+/-- what a reader learns from one `[CONSTRAINT "n" ]FOREIGN KEY (…) REFERENCES "u" (…)…` clause inside a CREATE TABLE -/
+structure FkClauseDesc where
+  constraint : Option Str
+  srcCols : List Str
+  dst : Str
+  dstCols : List Str
+  /-- what follows the referenced columns -/
+  actions : Str
+  deriving DecidableEq, Repr
+
+/-- the reader of an inline FOREIGN KEY clause (the table that gets the key is the one whose CREATE TABLE holds it) -/
+def readFkClause (s3 : Str) : Option FkClauseDesc :=
+  match stripKw (lit "FOREIGN KEY (") (readConstraint s3).2 with
+  | (true, s4) =>
+    match readNamesR s4.length s4 with
+    | some (sc, s5) =>
+      match stripKw (lit " REFERENCES ") s5 with
+      | (true, s6) =>
+        match readQual s6 with
+        | some (dst, s7) =>
+          match stripKw (lit " (") s7 with
+          | (true, s8) =>
+            match readNamesR s8.length s8 with
+            | some (dc, s9) => some ⟨(readConstraint s3).1, sc, dst, dc, s9⟩
+            | none => none
+          | _ => none
+        | none => none
+      | _ => none
+    | none => none
+  | _ => none
+
 /-- what a reader of the DDL learns from one `CREATE INDEX` statement -/
 structure IndexDesc where
   unique : Bool
